@@ -137,5 +137,8 @@ theorem shape_Conn_Cap : Facts.shape_Conn_Cap = some "4c87ca83ecf6f197" := by de
 /-- [C08] `Conn.Authenticate` is the body the model transcribes -/
 theorem shape_Conn_Authenticate : Facts.shape_Conn_Authenticate = some "160ecf6596666363" := by decide
 
+/-- [C10] `Conn.rateLimit` is the body the model transcribes -/
+theorem shape_Conn_rateLimit : Facts.shape_Conn_rateLimit = some "304b797776fb4789" := by decide
+
 
 end FactsCheck
